@@ -270,11 +270,11 @@ def shapes(tier: str, pid: str):
             A((kind, {"n": 8, key: 1, "lab": [1], "links": 0}))
     A(("data3d", {"n": 2, "tracks": 1, "fmt": 2, "lab": [1]}))
     A(("data3d", {"n": 1, "tracks": 1, "fmt": 1, "links": None, "lab": [1]}))  # links attribute never set
-    A(("data3d", {"n": 1, "tracks": 1, "fmt": 1, "links": 2, "lab": [255], "flag": 1}))
+    A(("data3d", {"n": 1, "tracks": 1, "fmt": 1, "links": 2, "lab": [40 if q else 255], "flag": 1}))
     A(("emg", {"n": 60, "signals": 0}))
     A(("fpcal", {"plats": 0}))
     A(("fpcal", {"plats": 1, "lab": [3]}))
-    A(("fpcal", {"plats": 2, "lab": [0, 255]}))
+    A(("fpcal", {"plats": 2, "lab": [0, 40 if q else 255]}))
     A(("data2d", {"cells": []}))
     A(("data2d", {"cells": [[None]]}))
     A(("data2d", {"cells": [[1, None], [2, 1]]}))
@@ -289,7 +289,7 @@ def shapes(tier: str, pid: str):
     A(("events", {"events": []}))
     A(("events", {"events": [(0, 1)], "lab": [2]}))
     A(("events", {"events": [(0, 0), (1, 2)], "lab": [0, 3]}))
-    A(("events", {"events": [(1, 0), (1, 1), (0, 1)], "lab": [1, 255, 1]}))
+    A(("events", {"events": [(1, 0), (1, 1), (0, 1)], "lab": [1, 255, 1]}))  # the 255/256-byte boundary, every tier
     if not q:
         A(("fpcal", {"plats": 3, "lab": [1, 2, 31]}))
         A(("data2d", {"cells": [[1, 2], [None, 3], [2, None]]}))
